@@ -5,6 +5,9 @@
 //! stdin : one case per line,
 //!         `script=2,1 panics=1.0,2.1 [bombs=1.0] sched=random|pct3|dfs seed=123 iters=500 [spur=K|inf]`
 //!         (`bombs`: calls that panic with a payload whose own `Drop` panics)
+//!         `rtype=usize|bool|char|ord|dur`: the result type T of the task handed
+//!         to `par_extend` (`Vec<Option<T>>`): niche-optimised `Option<T>`s have
+//!         no all-zero `None`
 //!         `failspawn=k`: the k-th thread creation of every schedule is refused
 //!         (`Builder::spawn` returns `Err`; the `expect` in pool.rs panics under
 //!         the lock, the harness catches the unwind and goes on with the script)
@@ -171,8 +174,66 @@ fn task_of<S: TaskState>(st: S) -> impl Fn(usize) -> usize + Sync + Send {
     }
 }
 
+/// Result type of the task.  `of(i)` is the result of call `i` (position
+/// dependent where the type allows), `pre(j)` an element of a pre-filled vector.
+trait RVal: Clone + PartialEq + Send + Sync + 'static {
+    fn of(i: usize) -> Self;
+    fn pre(j: usize) -> Self;
+}
+impl RVal for usize {
+    fn of(i: usize) -> Self {
+        i
+    }
+    fn pre(j: usize) -> Self {
+        1000 + j
+    }
+}
+impl RVal for bool {
+    fn of(i: usize) -> Self {
+        i % 2 == 1
+    }
+    fn pre(j: usize) -> Self {
+        j % 2 == 0
+    }
+}
+impl RVal for char {
+    fn of(i: usize) -> Self {
+        char::from_u32('a' as u32 + (i as u32 % 26)).unwrap()
+    }
+    fn pre(j: usize) -> Self {
+        char::from_u32('A' as u32 + (j as u32 % 26)).unwrap()
+    }
+}
+impl RVal for std::cmp::Ordering {
+    fn of(i: usize) -> Self {
+        [std::cmp::Ordering::Less, std::cmp::Ordering::Greater, std::cmp::Ordering::Equal][i % 3]
+    }
+    fn pre(j: usize) -> Self {
+        [std::cmp::Ordering::Greater, std::cmp::Ordering::Less][j % 2]
+    }
+}
+impl RVal for std::time::Duration {
+    fn of(i: usize) -> Self {
+        std::time::Duration::new(i as u64 + 1, 7 * i as u32)
+    }
+    fn pre(j: usize) -> Self {
+        std::time::Duration::new(1000 + j as u64, 1)
+    }
+}
+
+#[derive(Clone, Copy, PartialEq)]
+enum RType {
+    Usize,
+    Bool,
+    Char,
+    Ord,
+    Dur,
+}
+
 /// `par_extend` with the given task; true = left by an escaping panic.
-fn extend<F: Sync + Fn(usize) -> usize>(pool: &ThreadPool, v: &mut Vec<Option<usize>>, n: usize, f: F) -> bool {
+fn extend<T: RVal, F: Sync + Fn(usize) -> usize>(pool: &ThreadPool, v: &mut Vec<Option<T>>, n: usize, f: F) -> bool {
+    // the whole capture of the task is `f` (and with it its alignment)
+    let f = move |i: usize| -> T { T::of(f(i)) };
     // `par_extend` stores `{ ptr, f }` behind the header of `TaskShared`
     // (padding included in the size).
     sched_std::set_closure_words(1 + (std::mem::size_of_val(&f) + 7) / 8);
@@ -192,7 +253,7 @@ enum VecMode {
 }
 
 /// One shuttle execution: a scripted sequence of broadcasts on one pool.
-fn body(
+fn body<T: RVal>(
     script: &[usize],
     panics: &Arc<HashSet<(usize, usize)>>,
     bombs: &Arc<HashSet<(usize, usize)>>,
@@ -203,10 +264,10 @@ fn body(
     sched_std::reset(); // registers the main task as thread 0
     sched_std::set_fail_spawn(failspawn);
     let pool = ThreadPool::new();
-    let mut shared: Vec<Option<usize>> = match vmode {
+    let mut shared: Vec<Option<T>> = match vmode {
         VecMode::Pre(k, c) => {
             let mut v = Vec::with_capacity(c.max(k));
-            v.extend((0..k).map(|j| Some(1000 + j)));
+            v.extend((0..k).map(|j| Some(T::pre(j))));
             v
         }
         _ => Vec::new(),
@@ -218,8 +279,8 @@ fn body(
 
         // Fresh vector: spare capacity, so that an out-of-range index of a
         // broken pool does not write outside the buffer.
-        let mut fresh: Vec<Option<usize>> = Vec::new();
-        let v: &mut Vec<Option<usize>> = match vmode {
+        let mut fresh: Vec<Option<T>> = Vec::new();
+        let v: &mut Vec<Option<T>> = match vmode {
             VecMode::Fresh => {
                 fresh = Vec::with_capacity(n + 16);
                 &mut fresh
@@ -230,7 +291,7 @@ fn body(
             }
             VecMode::Append | VecMode::Pre(..) => &mut shared,
         };
-        let old: Vec<Option<usize>> = v.clone();
+        let old: Vec<Option<T>> = v.clone();
         let old_len = old.len();
 
         let ctx: &'static Ctx = Box::leak(Box::new(Ctx { b, panics: Arc::clone(panics), bombs: Arc::clone(bombs) }));
@@ -252,16 +313,19 @@ fn body(
         if v.len() != old_len + n + 1 {
             log(format!("G.len.{}.{}", v.len(), old_len + n + 1));
         }
-        let view: &[Option<usize>] = unsafe { std::slice::from_raw_parts(v.as_ptr(), readable) };
+        let view: &[Option<T>] = unsafe { std::slice::from_raw_parts(v.as_ptr(), readable) };
         if view.len() < old_len || view[..old_len] != old[..] {
             log("G.old".to_string());
         }
 
         let slots: Vec<String> = view[old_len.min(readable)..]
             .iter()
-            .map(|s| match s {
+            .enumerate()
+            .map(|(i, s)| match s {
                 None => "-".to_string(),
-                Some(x) => x.to_string(),
+                // the result of call i is printed as i; any other value as `?`
+                Some(x) if *x == T::of(i) => i.to_string(),
+                Some(_) => "?".to_string(),
             })
             .collect();
         // T = returned, Z = left by an escaping panic, Y = left by the panic of
@@ -351,6 +415,7 @@ struct Case {
     vmode: VecMode,
     smode: StateMode,
     failspawn: Option<usize>,
+    rtype: RType,
     seed: u64,
     iters: usize,
     /// Spurious wake-ups allowed per execution (None = unbounded).
@@ -366,6 +431,7 @@ fn parse(line: &str) -> Case {
         vmode: VecMode::Fresh,
         smode: StateMode::Plain,
         failspawn: None,
+        rtype: RType::Usize,
         seed: 0,
         iters: 100,
         spur: None,
@@ -427,6 +493,16 @@ fn parse(line: &str) -> Case {
                 }
             }
             "failspawn" => c.failspawn = Some(v.parse().expect("failspawn")),
+            "rtype" => {
+                c.rtype = match v {
+                    "usize" => RType::Usize,
+                    "bool" => RType::Bool,
+                    "char" => RType::Char,
+                    "ord" => RType::Ord,
+                    "dur" => RType::Dur,
+                    _ => panic!("bad rtype {v}"),
+                }
+            }
             "seed" => c.seed = v.parse().expect("seed"),
             "iters" => c.iters = v.parse().expect("iters"),
             "spur" => c.spur = Some(if v == "inf" { None } else { Some(v.parse().expect("spur")) }),
@@ -477,6 +553,7 @@ fn run_chunk(
     vmode: VecMode,
     smode: StateMode,
     failspawn: Option<usize>,
+    rtype: RType,
 ) -> Result<usize, String> {
     let h = std::thread::Builder::new()
         .name("hx-sched-runner".into())
@@ -498,7 +575,13 @@ fn run_chunk(
                             }
                         }))
                     });
-                    body(&script, &panics, &bombs, vmode, smode, failspawn)
+                    match rtype {
+                        RType::Usize => body::<usize>(&script, &panics, &bombs, vmode, smode, failspawn),
+                        RType::Bool => body::<bool>(&script, &panics, &bombs, vmode, smode, failspawn),
+                        RType::Char => body::<char>(&script, &panics, &bombs, vmode, smode, failspawn),
+                        RType::Ord => body::<std::cmp::Ordering>(&script, &panics, &bombs, vmode, smode, failspawn),
+                        RType::Dur => body::<std::time::Duration>(&script, &panics, &bombs, vmode, smode, failspawn),
+                    }
                 };
                 match sched {
                     Sched::Random => {
@@ -546,7 +629,7 @@ fn replay(line: &str) -> String {
         // the same prefix and the first schedule of PCT hardly depends on the
         // seed, so those two stop at their first failure.
         let seed = case.seed.wrapping_add(all.len() as u64);
-        let r = run_chunk(case.sched, spur, seed, remaining, Arc::clone(&script), Arc::clone(&panics), Arc::clone(&bombs), case.vmode, case.smode, case.failspawn);
+        let r = run_chunk(case.sched, spur, seed, remaining, Arc::clone(&script), Arc::clone(&panics), Arc::clone(&bombs), case.vmode, case.smode, case.failspawn, case.rtype);
         // PCT refuses to go on when an execution had no scheduling step at all
         // ("test closure did not exercise any concurrency"): that is the end of
         // the exploration of a trivial script, not a failure of the pool.
